@@ -1,8 +1,8 @@
 #!/bin/sh
-# seed sweep: ./tools/sweep.sh <tier> <seeds...>   (writes no evidence)
+# seed sweep: ./tools/sweep.sh <tier> <seeds...>   (writes no evidence; SWEEP_CHECKS="01 02" restricts it)
 tier=$1; shift
 for s in "$@"; do
-  for i in 01 02 03 04 05 06 07 08 09 10 11 12 13 14 15 16 17 18 19 20; do
+  for i in ${SWEEP_CHECKS:-01 02 03 04 05 06 07 08 09 10 11 12 13 14 15 16 17 18 19 20}; do
     out=$(PYTHONHASHSEED=$((s % 3)) ./check C$i --tier $tier --seed $s --no-evidence 2>&1 | grep -v '^KNOWN-FINDING')
     echo "$out" | tail -3 | cut -c1-400
   done
